@@ -44,6 +44,17 @@ SOURCES = {
     # ... and a sinusoid inside the resolution of the third harmonic of the 0.1 rad/s sawtooth (one merged line)
     "ac03005": ("ac", {"V": -1, "w": "3005/10000", "phi": "0"}),
 }
+# high-frequency family: two sinusoids 0.05 rad/s apart at 1e4 rad/s (distinct lines: the resolution is absolute, not relative),
+# a third one inside the resolution of the first (merged line) and a rectangle whose 5th harmonic is 0.002 rad/s below the first
+HF_SOURCES = {
+    "hf1": ("ac", {"V": 2, "w": 10000, "phi": "a34"}),
+    "hf2": ("ac", {"V": "3/2", "w": "200001/20", "phi": "0"}),
+    "hf3": ("ac", {"V": -1, "w": "100000005/10000", "phi": "pi/2", "R": 2}),
+    "hfrect": ("periodic", {"wavetype": "rect", "V": 1, "w": "19999996/10000", "phi": "0"}),
+}
+HF_BASE = {"RChf": [["resistor", "R1", ["1", "2"], {"R": 2}], ["capacitor", "C1", ["2", "0"], {"C": "1/20000"}], ["resistor", "R2", ["2", "0"], {"R": 3}]]}
+SOURCES_ALL = dict(SOURCES, **HF_SOURCES)
+BASES_ALL = dict(BASES, **HF_BASE)
 WMAX = ["0", "1/20", "1/4", "7/20", "3/2", "19/20", "5"]
 
 
@@ -52,7 +63,7 @@ def budget_s(tier):
 
 
 def source_component(name, flavour, idx, n1, n2):
-    typ, p = SOURCES[name]
+    typ, p = SOURCES_ALL[name]
     p = dict(p)
     if flavour == "I":
         p["I"] = p.pop("V")
@@ -77,7 +88,7 @@ def build(base, mix, flavour):
         for k, name in enumerate(mix):
             comps.append(source_component(name, "I", k, "0", "1"))
         comps.append(["resistor", "Rp", ["1", "0"], {"R": 13}])
-    comps += [list(c) for c in BASES[base]]
+    comps += [list(c) for c in BASES_ALL[base]]
     comps.append(["ground", "gnd", ["0"], {}])
     return {"components": comps}
 
@@ -91,6 +102,12 @@ def shards(tier):
             for mix in itertools.combinations(names, r):
                 for fl in ("V", "I"):
                     out.append(("mix%d" % r, (base, mix, fl, tier)))
+    hf = list(HF_SOURCES) + ["dc", "ac1"]
+    for r in (2, 3) if tier == "quick" else (2, 3, 4):
+        for mix in itertools.combinations(hf, r):
+            if sum(m in HF_SOURCES for m in mix) >= 2:
+                for fl in ("V", "I"):
+                    out.append(("hf%d" % r, ("RChf", mix, fl, tier)))
     return out
 
 
@@ -99,6 +116,8 @@ def run_shard(desc):
     res = new_result()
     d = build(base, mix, fl)
     wmax = list(WMAX)
+    if base == "RChf":
+        wmax = ["0", "9999", "10000", "200001/20", "10001", "12000"]
     if ("rect8" in mix or "ac24" in mix) and "saw01" not in mix:
         wmax.append("30")
     for wm in wmax:
